@@ -65,8 +65,10 @@ package specs
 //@ requires[write-locked] wheld(rw) == 1
 //@ assigns wheld(rw)
 //@ ensures wheld(rw) == 0
+// recursive read locking is prohibited by sync.RWMutex (a writer arriving in between deadlocks both)
 //@ func sync.(*RWMutex).RLock
 //@ requires[no-write-lock-held-by-this-goroutine] wheld(rw) == 0
+//@ requires[no-recursive-read-lock] rheld(rw) == 0
 //@ assigns rheld(rw)
 //@ ensures rheld(rw) == old(rheld(rw))+1
 //@ func sync.(*RWMutex).RUnlock
@@ -112,6 +114,20 @@ package specs
 // ---- libp2p ---------------------------------------------------------------------------------------
 //@ iface github.com/libp2p/go-libp2p/core/network.ConnMultiaddrs.RemoteMultiaddr
 //@ pure
+// RLocker(): a Locker whose Lock/Unlock are RLock/RUnlock of the same mutex
+//@ spec rlockerOf(l sync.Locker) *sync.RWMutex
+//@ func sync.(*RWMutex).RLocker
+//@ pure
+//@ ensures rlockerOf(result) == rw
+//@ iface sync.Locker.Lock
+//@ requires[no-write-lock-held-by-this-goroutine] wheld(rlockerOf(recv)) == 0
+//@ requires[no-recursive-read-lock] rheld(rlockerOf(recv)) == 0
+//@ assigns rheld(rlockerOf(recv))
+//@ ensures rheld(rlockerOf(recv)) == old(rheld(rlockerOf(recv)))+1
+//@ iface sync.Locker.Unlock
+//@ requires[read-locked] rheld(rlockerOf(recv)) > 0
+//@ assigns rheld(rlockerOf(recv))
+//@ ensures rheld(rlockerOf(recv)) == old(rheld(rlockerOf(recv)))-1
 //@ func sync.(*WaitGroup).Done
 //@ assigns nothing
 //@ func sync.(*WaitGroup).Add
